@@ -11,7 +11,15 @@ CaseOf(l, b) == LET lo == M[l + 1][b].lo[1]
                 IN IF pos > Centre(l, hi) THEN (IF hi = NCells(l) - 1 THEN "beyond-last-centre-of-domain" ELSE "gap-after-last-centre")
                    ELSE IF pos < Centre(l, lo) THEN (IF lo = 0 THEN "before-first-centre-of-domain" ELSE "gap-before-first-centre")
                    ELSE IF \E i \in lo..hi : Centre(l, i) = pos THEN "on-centre" ELSE "between-centres"
-LevelClass(l) == {CaseOf(l, b) : b \in {b \in DOMAIN M[l + 1] : U(l) * M[l + 1][b].lo[1] <= pos /\ pos <= U(l) * (M[l + 1][b].hi[1] + 1)}}
+CrossedSet(l) == {b \in DOMAIN M[l + 1] : MeetsPlane(l, b)}
+NeighbourSet(l) == {b \in DOMAIN M[l + 1] : ~MeetsPlane(l, b) /\ 2 * U(l) * M[l + 1][b].lo[1] - U(l) <= 2 * pos
+                                                /\ 2 * pos <= 2 * U(l) * (M[l + 1][b].hi[1] + 1) + U(l)}
+\* a half-cell neighbour whose in-plane footprint is not contained in that of a crossed box it faces
+Overhang(l) == \E n \in NeighbourSet(l) : \E c \in CrossedSet(l) :
+                  /\ ~(M[l + 1][n].hi[2] < M[l + 1][c].lo[2] \/ M[l + 1][c].hi[2] < M[l + 1][n].lo[2])
+                  /\ (M[l + 1][n].lo[2] < M[l + 1][c].lo[2] \/ M[l + 1][n].hi[2] > M[l + 1][c].hi[2])
+LevelClass(l) == <<{CaseOf(l, b) : b \in CrossedSet(l)}, Cardinality(CrossedSet(l)), Cardinality(NeighbourSet(l)),
+                   IF Overhang(l) THEN "overhang" ELSE "flush">>
 Sig == <<Len(M), lim, IF InDomain THEN "in" ELSE "out", [l \in 0..lim |-> LevelClass(l)]>>
 Scenario == [prop |-> "C07", sig |-> Sig, n0 |-> N0, t0 |-> T0, mesh |-> M, pos |-> pos, lim |-> lim, unit |-> U(0),
              expect |-> IF ~InDomain THEN <<"err">>
